@@ -21,7 +21,7 @@ def wire_payload(w, name, maxlen, minlen=0):
     s = w.fresh_str(name, maxlen, minlen)
     if w.symbolic:
         for c in s.cs:
-            w.p.add(c != 59, c != 10, c != 13)
+            w.p.add(z3.Not(c == 59), z3.Not(c == 10), z3.Not(c == 13))
         if s.cs:
             w.p.add(z3.Not(in_ranges(s.cs[-1], WS_RANGES)))
     else:
@@ -72,3 +72,503 @@ def check_canonical(w, line, what):
         ws = in_ranges(last, WS_RANGES)
         w.check(w.not_(ws) if not isinstance(ws, bool) else not ws,
                 f"{what}: payload has trailing whitespace")
+
+
+# ================================================================================================
+# Fakes (run natively in both modes; they only store what they are given)
+class FakeConn:
+    """Serial / socket connection object behind protocol.transport."""
+
+    __symex_native__ = True
+
+    def __init__(self, name="conn"):
+        self.name = name
+        self.written = []
+        self.closed = False
+        self.fail_write = False
+        self.serial = self
+        self.events = []
+
+    def write(self, data):
+        if self.fail_write:
+            from symex.core import prog
+            raise prog(OSError("write failed"))
+        self.written.append((data, self.closed))
+
+    def close(self):
+        self.closed = True
+        self.events.append("close")
+
+    def __repr__(self):
+        return f"<FakeConn {self.name}>"
+
+
+class EventLog:
+    """Event callback: records the message fields and the state it sees; may raise."""
+
+    __symex_native__ = True
+
+    def __init__(self, raises=False, w=None):
+        self.calls = []
+        self.raises = raises  # bool, or a symbolic flag decided lazily through w
+        self.gw = None
+        self.w = w
+
+    def __call__(self, msg):
+        d = msg.__dict__
+        self.calls.append((tuple(d[f] for f in FIELDS), snap_gateway(self.gw) if self.gw else None))
+        if self.w.is_true(self.raises) if self.w is not None else self.raises:
+            from symex.core import prog
+            raise prog(RuntimeError("event callback failed"))
+
+
+class PubSubLog:
+    __symex_native__ = True
+
+    def __init__(self, raises=False):
+        self.published = []
+        self.subscribed = []
+        self.raises = raises
+
+    def pub(self, topic, payload, qos, retain):
+        self.published.append((topic, payload, qos, retain))
+        if self.raises:
+            from symex.core import prog
+            raise prog(RuntimeError("publish failed"))
+
+    def sub(self, topic, callback, qos):
+        self.subscribed.append((topic, callback, qos))
+        if self.raises:
+            from symex.core import prog
+            raise prog(RuntimeError("subscribe failed"))
+
+
+def _noconnect(transport):
+    return None
+
+
+_noconnect.__symex_native__ = True
+
+
+# ================================================================================================
+# Projections
+def snap_child(c):
+    d = c.__dict__
+    return (d["id"], d["type"], d.get("description"), tuple(d["values"].items()))
+
+
+def snap_sensor(s):
+    d = s.__dict__
+    return (
+        d["sensor_id"], d["type"], d["sketch_name"], d["sketch_version"], d["_battery_level"],
+        d["_protocol_version"], d["_heartbeat"], d["reboot"],
+        tuple((k, snap_child(c)) for k, c in d["children"].items()),
+        tuple((k, snap_child(c)) for k, c in d["new_state"].items()),
+        tuple(d["queue"]),
+    )
+
+
+def snap_persisted(s):
+    """The part of a node a save/load cycle preserves."""
+    d = s.__dict__
+    return (d["sensor_id"], d["type"], d["sketch_name"], d["sketch_version"], d["_battery_level"],
+            d["_protocol_version"], d["_heartbeat"],
+            tuple((k, snap_child(c)) for k, c in d["children"].items()))
+
+
+def snap_ota(ota):
+    return (tuple(ota.firmware.items()), tuple(ota.requested.items()),
+            tuple(ota.unstarted.items()), tuple(ota.started.items()))
+
+
+def snap_gateway(gw):
+    return (tuple((k, snap_sensor(s)) for k, s in gw.sensors.items()), snap_ota(gw.tasks.ota),
+            gw.can_log, gw.metric)
+
+
+# ================================================================================================
+# Gateway under test
+class GW:
+    """Bundle: the real gateway object plus the fakes around it."""
+
+    def __init__(self):
+        self.gw = None
+        self.conn = None
+        self.events = None
+        self.pubsub = None
+        self.flavour = None
+        self.transport_kind = None
+        self.version = None
+
+
+def make_gateway(w, version, flavour="sync", transport="serial", cb_raises=False,
+                 persistence=False, persistence_file="mysensors.pickle", in_prefix="",
+                 out_prefix="", pubsub_raises=False, connected=True):
+    import mysensors
+    from mysensors import gateway_mqtt
+    from mysensors.transport import AsyncTransport, SyncTransport
+    g = GW()
+    g.flavour, g.transport_kind, g.version = flavour, transport, version
+    g.events = EventLog(cb_raises, w)
+    if transport == "serial":
+        cls = mysensors.BaseSyncGateway if flavour == "sync" else mysensors.BaseAsyncGateway
+        gw = cls.__new__(cls)
+        tr = w.new(SyncTransport if flavour == "sync" else AsyncTransport, gw, _noconnect)
+        w.call(cls.__init__, gw, tr, event_callback=g.events, protocol_version=version,
+               persistence=persistence, persistence_file=persistence_file)
+        g.conn = FakeConn()
+        if connected:
+            tr.protocol.transport = g.conn
+    elif transport == "mqtt":
+        cls = gateway_mqtt.MQTTGateway if flavour == "sync" else gateway_mqtt.AsyncMQTTGateway
+        g.pubsub = PubSubLog(pubsub_raises)
+        gw = w.new(cls, g.pubsub.pub, g.pubsub.sub, in_prefix=in_prefix, out_prefix=out_prefix,
+                   event_callback=g.events, protocol_version=version, persistence=persistence,
+                   persistence_file=persistence_file)
+    else:
+        raise ValueError(transport)
+    g.gw = gw
+    g.events.gw = gw
+    return g
+
+
+def emissions(g):
+    """Ordered command strings that reached the wire."""
+    if g.transport_kind == "serial":
+        out = []
+        for data, closed in g.conn.written:
+            out.append(_decode_written(data))
+        return out
+    return [("mqtt", t, p, q, r) for (t, p, q, r) in g.pubsub.published]
+
+
+def _decode_written(data):
+    from symex.core import SBytes
+    if isinstance(data, SBytes):
+        if data.src is not None:
+            return data.src
+        return SStr(data.bs)
+    return data.decode()
+
+
+def drain(w, g):
+    """What the poll thread does with the queue (threaded flavour); asyncio jobs ran inline."""
+    tasks = g.gw.tasks
+    n = 0
+    while len(tasks.queue) > 0:
+        n += 1
+        if n > 64:
+            w.fail("job queue does not drain (more than 64 jobs from one step)")
+        reply = w.call(tasks.run_job)
+        w.call(tasks.transport.send, reply)
+
+
+def step_line(w, g, line):
+    """One inbound line: queued like handle_line does, then the queue is drained."""
+    w.call(g.gw.tasks.add_job, g.gw.logic, line)
+    drain(w, g)
+
+
+def structured_line(w, ints, payload, terminator="\n"):
+    parts = []
+    for x in ints:
+        parts.append(x)
+        parts.append(";")
+    parts.append(payload)
+    parts.append(terminator)
+    return concat(w, parts)
+
+
+def str_rule_types(version):
+    """Value types of `version` whose payload rule is 'any text' (from the current tables)."""
+    const = const_for(version)
+    return sorted(int(t) for t, rule in const.VALID_SETREQ.items() if rule is str)
+
+
+def one_of(w, x, values):
+    if not w.symbolic:
+        return x in values
+    if isinstance(x, int):
+        return x in values
+    return z3.Or([x.e == int(v) for v in values])
+
+
+def distinct(w, xs):
+    for i in range(len(xs)):
+        for j in range(i + 1, len(xs)):
+            w.assume_fast(w.ne(xs[i], xs[j]))
+
+
+# ================================================================================================
+# State generator (DESIGN §4 / Appendix B)
+#
+# Flags that do not change the *structure* of the state (reboot pending, callback raises) are
+# symbolic booleans, so they fork lazily - only on paths that actually read them.
+def sym_flag(w, name):
+    return w.fresh_bool(name)
+
+
+def gen_child(w, tag, cid, version, nvalues, ctype=None, special=()):
+    from mysensors.sensor import ChildSensor
+    child = ChildSensor.__new__(ChildSensor)
+    child.id = cid
+    child.type = ctype if ctype is not None else w.fresh_int(f"{tag}.type", 0, 40)
+    child.description = wire_payload(w, f"{tag}.desc", 1, 1)
+    child.values = {}
+    keys = []
+    for k, v in special:  # concrete entries whose rule is not 'any text'
+        child.values[k] = v
+        keys.append(k)
+    ok_types = str_rule_types(version)
+    for i in range(nvalues):
+        k = w.fresh_int(f"{tag}.vt{i}")
+        w.assume_fast(one_of(w, k, ok_types))
+        for kk in keys:
+            w.assume_fast(w.ne(k, kk))
+        keys.append(k)
+        child.values[k] = wire_payload(w, f"{tag}.val{i}", 1, 1)
+    return child
+
+
+def gen_node(w, tag, nid, version, shape):
+    """shape: dict(children=[dict(values=int, covered=bool)], sleeping=bool, queue=int,
+    node_version=str|None, attrs=bool).  A covered child of a sleeping node gets the desired map
+    {vt0: pending, vt1: None, other: pending} over its reported value types vt0, vt1."""
+    from collections import deque
+    from mysensors.sensor import ChildSensor, Sensor
+    s = Sensor.__new__(Sensor)
+    d = s.__dict__
+    d["sensor_id"] = nid
+    d["children"] = {}
+    if shape.get("attrs", True):
+        d["type"] = w.fresh_int(f"{tag}.type", 0, 40)
+        d["sketch_name"] = wire_payload(w, f"{tag}.sketch", 1, 1)
+        d["sketch_version"] = None
+        d["_battery_level"] = w.fresh_int(f"{tag}.battery", 0, 100)
+        d["_heartbeat"] = w.fresh_int(f"{tag}.heartbeat")
+    else:
+        d["type"] = None
+        d["sketch_name"] = None
+        d["sketch_version"] = None
+        d["_battery_level"] = 0
+        d["_heartbeat"] = 0
+    d["_protocol_version"] = shape.get("node_version") or version
+    d["new_state"] = {}
+    d["queue"] = deque()
+    d["reboot"] = sym_flag(w, f"{tag}.reboot") if shape.get("reboot", True) else False
+    sleeping = shape.get("sleeping") and sleeping_possible(version)
+    cids = []
+    ok_types = str_rule_types(version)
+    for i, cs in enumerate(shape.get("children", [])):
+        cid = w.fresh_int(f"{tag}.c{i}.id", 0, 254)
+        for other in cids:
+            w.assume_fast(w.ne(cid, other))
+        cids.append(cid)
+        special = cs.get("special", {}).get(version, ())
+        child = gen_child(w, f"{tag}.c{i}", cid, version, cs.get("values", 0), special=special)
+        d["children"][cid] = child
+        if sleeping and cs.get("covered", True):
+            ns = ChildSensor.__new__(ChildSensor)
+            ns.id, ns.type, ns.description, ns.values = cid, child.type, child.description, {}
+            keys = [k for k in child.values.keys() if not any(k is sk for sk, _ in special)]
+            for sk, _ in special:
+                ns.values[sk] = None
+            if keys:
+                ns.values[keys[0]] = wire_payload(w, f"{tag}.c{i}.des0", 1, 1)
+            if len(keys) > 1:
+                ns.values[keys[1]] = None
+            if cs.get("extra_desired", True):
+                k = w.fresh_int(f"{tag}.c{i}.dt")
+                w.assume_fast(one_of(w, k, ok_types))
+                for kk in keys:
+                    w.assume_fast(w.ne(k, kk))
+                ns.values[k] = wire_payload(w, f"{tag}.c{i}.des2", 1, 1)
+            d["new_state"][cid] = ns
+    for q in range(shape.get("queue", 0) if sleeping else 0):
+        # a withheld canonical line addressed to this node (not a stream command)
+        c_ = w.fresh_int(f"{tag}.q{q}.child", 0, 255)
+        t_ = w.fresh_int(f"{tag}.q{q}.type", 1, 3)
+        st = w.fresh_int(f"{tag}.q{q}.sub", 0, 40)
+        pl = wire_payload(w, f"{tag}.q{q}.payload", 1, 1)
+        d["queue"].append(structured_line(w, [nid, c_, t_, 0, st], pl))
+    return s
+
+
+SHAPES = {
+    "bare": dict(children=[], attrs=False, reboot=False),
+    "awake": dict(children=[dict(values=2), dict(values=0)]),
+    "awake1": dict(children=[dict(values=1)]),
+    # sleeping node: child 0 covered by the desired state, child 1 presented after the wake-up
+    "sleep": dict(sleeping=True, queue=1,
+                  children=[dict(values=2, covered=True), dict(values=1, covered=False)]),
+    "sleep2": dict(sleeping=True, queue=2,
+                   children=[dict(values=2, covered=True), dict(values=1, covered=True)]),
+    # node that presented an older protocol version than the gateway is configured for
+    # (value type 22 is a 0/1 switch in 1.4 and an HVAC speed word from 1.5 on: the node has
+    # reported a speed word, which is valid for the gateway)
+    "sleep_old": dict(sleeping=True, queue=0, node_version="1.4",
+                      children=[dict(values=1, covered=True, extra_desired=False,
+                                     special={v: ((22, "Auto"),) for v in ("2.0", "2.1", "2.2")})]),
+}
+
+
+def gen_network(w, g, shapes, tags=None):
+    """Install nodes with pairwise distinct symbolic ids; returns the list of ids."""
+    ids = []
+    for i, name in enumerate(shapes):
+        tag = (tags or [f"n{j}" for j in range(len(shapes))])[i]
+        nid = w.fresh_int(f"{tag}.id", 0, 255)
+        for other in ids:
+            w.assume_fast(w.ne(nid, other))
+        ids.append(nid)
+        shape = SHAPES[name] if isinstance(name, str) else name
+        g.gw.sensors[nid] = gen_node(w, tag, nid, g.version, shape)
+    return ids
+
+
+# ================================================================================================
+def make_env(w):
+    from symex.env import Env
+    return Env(w)
+
+
+def sleeping_possible(version):
+    return version in ("2.0", "2.1", "2.2")
+
+
+def shape_has_sleep(shape):
+    return any((SHAPES[s] if isinstance(s, str) else s).get("sleeping") for s in shape)
+
+
+def gen_ota(w, g, ids, mode="fixed"):
+    """OTA stores: one image (symbolic type/version, concrete data built by the real
+    prepare_fw).  mode 'fixed': the *last* node is scheduled (requested), the others are not;
+    otherwise the first node is in the named session state ('none' = no session at all)."""
+    from mysensors.ota import prepare_fw
+    if not ids or mode == "none":
+        return None
+    ota = g.gw.tasks.ota
+    ft = w.fresh_int("fw.type", 0, 65535)
+    fv = w.fresh_int("fw.version", 0, 65535)
+    ota.firmware[(ft, fv)] = prepare_fw(bytes(range(1, 101)))
+    if mode == "fixed":
+        ota.requested[ids[-1]] = (ft, fv)
+    else:
+        getattr(ota, mode)[ids[0]] = (ft, fv)
+    return (ft, fv)
+
+
+HEX_LENGTHS = [0, 1, 2, 11, 12, 13, 19, 20, 21]
+
+
+def hexish_payload(w, name, lengths=None):
+    lengths = lengths or HEX_LENGTHS
+    n = w.pick(lengths, f"len({name})")
+    s = w.fresh_str(name, n, n)
+    if w.symbolic:
+        for c in s.cs:
+            w.p.add(z3.Not(c == 59), z3.Not(c == 10), z3.Not(c == 13))
+        if s.cs:
+            w.p.add(z3.Not(in_ranges(s.cs[-1], WS_RANGES)))
+    else:
+        w.assume(";" not in s and "\n" not in s and "\r" not in s and s == s.rstrip())
+    return s
+
+
+def hex_payload(w, name, n):
+    """n symbolic hex digits."""
+    s = w.fresh_str(name, n, n)
+    if w.symbolic:
+        for ch in s.cs:
+            w.p.add(z3.Or(z3.And(ch >= 48, ch <= 57), z3.And(ch >= 65, ch <= 70),
+                          z3.And(ch >= 97, ch <= 102)))
+    else:
+        w.assume(all(ch in "0123456789abcdefABCDEF" for ch in s))
+    return s
+
+
+def classify(w, version, line):
+    """What the real decoder / validator say about a line: malformed | invalid | accepted.
+    Any other exception is a validator-totality violation."""
+    import voluptuous as vol
+    from mysensors.message import Message
+    try:
+        msg = w.new(Message, line)
+    except ValueError:
+        return "malformed"
+    except Exception as exc:
+        w.escaped(exc, "decode raised")
+    try:
+        w.call(msg.validate, version)
+    except vol.Invalid:
+        return "invalid"
+    except Exception as exc:
+        w.escaped(exc, "validate raised")
+    return "accepted"
+
+
+def model_int(w, x):
+    if not w.symbolic:
+        return int(x)
+    from symex.core import concretize
+    return concretize(x, w.p.current_model())
+
+
+def kind_tag(w, version, ints):
+    """Name of the message kind under the path's current model (used in labels only)."""
+    const = const_for(version)
+    t = model_int(w, ints[2])
+    s = model_int(w, ints[4])
+    try:
+        mt = const.MessageType(t)
+    except ValueError:
+        return f"type{t}"
+    enum_ = {"presentation": const.Presentation, "set": const.SetReq, "req": const.SetReq,
+             "internal": const.Internal, "stream": const.Stream}[mt.name]
+    if mt.name in ("internal", "stream"):
+        try:
+            return f"{mt.name}/{enum_(s).name}"
+        except ValueError:
+            return f"{mt.name}/{s}"
+    return mt.name
+
+
+def check_no_effect(w, g, before, what):
+    w.check(w.eq(snap_gateway(g.gw), before), f"{what} changed gateway state")
+    w.check(len(emissions(g)) == 0, f"{what} produced a reply / emission")
+    w.check(len(g.events.calls) == 0, f"{what} invoked the event callback")
+    w.check(len(g.gw.tasks.queue) == 0, f"{what} left a queued job")
+    if g.pubsub is not None:
+        w.check(len(g.pubsub.subscribed) == 0, f"{what} subscribed to a topic")
+
+
+def check_inv(w, g):
+    """Structural clauses of Inv on the post-state (B1, B5 node field, B7)."""
+    for k, s in g.gw.sensors.items():
+        w.check(w.eq(s.__dict__["sensor_id"], k), "Inv B1: sensor_id differs from its key")
+        for line in s.__dict__["queue"]:
+            ok = queue_line_addressed_to(w, line, k)
+            w.check(ok, "Inv B5: withheld line not addressed to its own node")
+    w.check(len(g.gw.tasks.queue) == 0, "Inv B7: job queue not drained")
+
+
+def queue_line_addressed_to(w, line, nid):
+    if not w.symbolic or isinstance(line, str):
+        return str(line).split(";")[0] == str(int(nid))
+    cs = lift_str(line).cs
+    if cs and isinstance(cs[0], Render) and len(cs) > 1 and cs[1] == 59:
+        return w.eq(SInt(cs[0].n), nid)
+    head = strs.s_split(w.p, lift_str(line), ";")[0]
+    return w.eq(strs.py_int_of_str(w.p, head), nid)
+
+
+def wakeup_line(w, version, nid):
+    sub = 32 if version == "2.2" else 22
+    return structured_line(w, [nid, 255, 3, 0, sub], "0")
+
+
+def wake_all(w, g, version, ids):
+    if not sleeping_possible(version):
+        return
+    for nid in ids:
+        step_line(w, g, wakeup_line(w, version, nid))
